@@ -48,6 +48,8 @@ def cases(rng, tier):
         cut = rng.randint(1, k - 1)
         left = [gen.random_gate(rng, lo, allow_empty=False) for _ in range(cut)]
         right = [gen.random_gate(rng, lo, allow_empty=False) for _ in range(k - cut)]
+        if rng.random() < 0.35:
+            right[-1] = left[0]       # a product framed by the same gate (V U V)
         chain = lambda gs: gs[0] if len(gs) == 1 else ("mul", chain(gs[:-1]), gs[-1])
         e = (how, chain(left), chain(right))
         hi = [c for c in range(1, 1 << n) if not c & ((1 << lo) - 1)]
@@ -66,6 +68,12 @@ def cases(rng, tier):
             cs.append({"kind": "matrix", "n": n, "e": e})
         else:
             cs.append({"kind": "applyraw", "n": n, "raw": gen.random_state(rng, n), "e": e})
+    # the documented products u3 / u2 with equal outer angles (rz(p) ry rz(p)) and hand-made framed products, controlled
+    for n_, m_, c_ in ((2, 1, 2), (3, 2, 5), (3, 4, 1), (4, 1, 12)):
+        for e in (("u3", 1.23456, 0.7, 0.7, m_), ("u3", -0.7, 7.5, 7.5, m_), ("u2", 1.23456, 1.23456, m_),
+                  ("mul", ("mul", ("s", m_), ("x", m_)), ("s", m_)), ("mul", ("mul", ("t", m_), ("h", m_)), ("t", m_)),
+                  ("mul", ("mul", ("rz", 0.7, m_), ("ry", 0.3, m_)), ("rz", 0.7, m_))):
+            cs.append({"kind": "matrix", "n": n_, "e": ("c", c_, e)})
     # dense states on the register path
     for _ in range(60 if tier == "quick" else 1500):
         n = rng.randint(2, 5)
